@@ -10,6 +10,7 @@ import (
 	mh "github.com/multiformats/go-multihash"
 	"pgregory.net/rapid"
 
+	ipfslog "berty.tech/go-ipfs-log"
 	"berty.tech/go-ipfs-log/entry"
 	"berty.tech/go-ipfs-log/iface"
 
@@ -38,6 +39,9 @@ type c11Prog struct {
 	StartIx     []int       `json:"startIx"`
 	Dup         bool        `json:"dup"`     // request one start hash twice
 	Unknown     bool        `json:"unknown"` // request a CID that is not stored
+	// SlowChain > 0: instead of the above, a plain chain of that many entries whose every block takes a while to
+	// arrive, loaded with a timeout much shorter than the sum of the delays (real time, no gate)
+	SlowChain int `json:"slowChain,omitempty"`
 }
 
 var faultKinds = []string{"absent", "error", "junk", "wrongshape", "stall", "slow", "absent", "error", "junk", "slow"}
@@ -64,12 +68,18 @@ func genC11(t *rapid.T) c11Prog {
 	p.StartIx = rapid.SliceOfN(rapid.IntRange(0, 1<<12), 1, 3).Draw(t, "startIx")
 	p.Dup = rapid.IntRange(0, 3).Draw(t, "dup") == 0
 	p.Unknown = rapid.IntRange(0, 3).Draw(t, "unknown") == 0
+	if rapid.IntRange(0, 39).Draw(t, "slowchain") == 27 {
+		p.SlowChain = rapid.IntRange(12, 16).Draw(t, "chain")
+	}
 	return p
 }
 
 // C11 — fetching tolerates missing, failing and slow blocks and always terminates.
 func runC11(tb ev.TB, p c11Prog) ev.Result {
 	coll := ev.Get("C11")
+	if p.SlowChain > 0 {
+		return runSlowChain(tb, p)
+	}
 	w := sim.Run(tb, &p.World, func(tb ev.TB, w *sim.World, info *sim.OpInfo) {
 		switch info.Op.Kind {
 		case "append", "join":
@@ -306,4 +316,49 @@ func TestC11(t *testing.T) {
 	c.Rule = "a generated multi-replica program (extra skip references) stores a DAG; a fault plan (0-4 blocks: absent, Get error, undecodable bytes, decodes to a manifest instead of an entry, stalls until the context ends, slow = completes last), an exclusion set (ShouldExclude), concurrency in {default,1,2,3,16}, start hashes (heads or 1-3 arbitrary entries, optionally one duplicated and one unknown CID) and a completion schedule are drawn. entry.FetchParallel runs under the gated store; a real timeout (20-100 ms) is configured only when a block stalls, otherwise (or with timeout 0) the harness cancels the context once only stalled reads remain. Oracles: the call returns (hang = no outstanding read, 3 s of store silence and a goroutine dump showing the fetcher parked); no hash twice in the result; the store's read log contains no excluded hash and no hash twice; result == entries reachable from the start along next ∪ refs through retrievable, non-excluded entries (⊆ when a stall may cut the walk). Non-trivial = a faulty block strictly inside the DAG with a healthy path around it and concurrency >= 2; distinct = distinct program."
 	c.Assumptions = []string{"'excluded' means FetchOptions.ShouldExclude, the only exclusion the fetcher consults", "termination is observed, not proved: a hang verdict needs quiescence plus a goroutine dump, anything else is inconclusive", "with a stalling block the time bound itself is not asserted (no wall-clock oracle), only that the call returns without the caller cancelling"}
 	ev.Check(t, "C11", genC11, runC11)
+}
+
+// runSlowChain: "terminates within the configured timeout when one is given" also when no single block is slower
+// than the timeout but their sum is. Real time: every block of a plain chain takes 120 ms, the timeout is 200 ms,
+// the load must be back well before the 1.4+ s the whole chain would take. A verdict needs three slow runs in a row
+// (a scheduling hiccup of a loaded machine does not repeat, a defect does).
+func runSlowChain(tb ev.TB, p c11Prog) ev.Result {
+	ctx := context.Background()
+	st := fakeipfs.NewStore()
+	l, err := world.NewLog(st.API(), 0, sim.LogID, world.OrderLWW, world.IO(world.CodecDefault, 0), nil)
+	if err != nil {
+		tb.Fatalf("harness: %v", err)
+	}
+	held := world.Set{}
+	var head cid.Cid
+	for i := 0; i < p.SlowChain; i++ {
+		e, err := l.Append(ctx, []byte{byte('a' + i)}, &ipfslog.AppendOptions{PointerCount: 1})
+		if err != nil {
+			tb.Fatalf("harness: %v", err)
+		}
+		held.Add(e.GetHash().String())
+		head = e.GetHash()
+	}
+	const delay, timeout, bound = 120 * time.Millisecond, 200 * time.Millisecond, 1100 * time.Millisecond
+	st.SetDelay(delay)
+	defer st.SetDelay(0)
+	var elapsed time.Duration
+	for attempt := 0; attempt < 3; attempt++ {
+		t0 := time.Now()
+		result := entry.FetchParallel(ctx, st.API(), []cid.Cid{head}, &iface.FetchOptions{Concurrency: p.Concurrency, Timeout: timeout, IO: world.IO(world.CodecDefault, 0)})
+		elapsed = time.Since(t0)
+		seen := world.Set{}
+		for _, e := range result {
+			h := e.GetHash().String()
+			if seen.Has(h) || !held.Has(h) {
+				tb.Fatalf("slow chain: entry %s returned twice or not part of the log", world.Short(h))
+			}
+			seen.Add(h)
+		}
+		if elapsed <= bound {
+			return ev.Result{NonTrivial: true, Classes: []string{"slow-chain-with-timeout"}}
+		}
+	}
+	tb.Fatalf("a load with a %v timeout over a chain of %d blocks that take %v each returned after %v (three times in a row more than %v): the timeout does not bound the load", timeout, p.SlowChain, delay, elapsed, bound)
+	return ev.Result{}
 }
